@@ -158,6 +158,10 @@ def gen_media(ch, spec):
     cfg["stall_rate"] = ch.choice("cfg", [0.0, 0.0, 0.002])
     cfg["stall_max"] = ch.choice("cfg", [0.02, 0.3])
     cfg["turn"] = fakes.gen_turn(ch, ["S", "R"])
+    if cfg["turn"] is None and ch.chance("cfg", 0.1):
+        # a paced sender: every packet (or every other one) takes a moment to leave, so that feedback about the first
+        # packets of a frame can come back while its last ones are still being sent
+        cfg["turn"] = {"node": "S", "nth": ch.choice("cfg", [1, 1, 2]), "dur": ch.choice("cfg", [0.0, 0.002, 0.01])}
     if ch.chance("cfg", 0.12):
         # a few feedback packets arrive seconds late: what they ask for may have left the sender's history
         cfg["hold_feedback"] = {"cls": "srtcp", "from": ch.randint("cfg", 2, 40, 5), "count": ch.choice("cfg", [1, 3, 8]),
@@ -188,6 +192,9 @@ def gen_media(ch, spec):
     cfg["hit_at"] = (65536 - cfg["seq0"]) if origin == "wrap" else ch.randint("cfg", 10, 300, 40)
     cfg["hits"] = ch.choice("cfg", [[], [], [0], [-1], [-1, 0], [-2, 1], [-1, 0, 1], [-3, 4], [-8, 8], [-1, 16], [-16, 0]])
     n = ch.choice("wl", [10, 30, 60, 120])
+    if cfg["mode"] == "live" and ch.chance("cfg", 0.2):
+        cfg["outage"] = [ch.choice("cfg", [0.3, 0.8]), ch.choice("cfg", [2.0, 4.0])]
+        n = 250
     ops = []
     maxpk = 8
     for _ in range(n):
@@ -369,6 +376,7 @@ class MediaWorld(MediaBase):
             elif pt == 206 and fmt == 1:
                 self.probes["pli"] += 1
                 self.discards += 1
+                self.last_discard_at = len(self.sent)       # frames sent so far
                 self.partial_ok = True
                 self.log.add("pli")
 
@@ -428,6 +436,14 @@ class MediaWorld(MediaBase):
         await pair.connect()
         if any(pair.dtls[n].state != "connected" for n in "SR"):
             raise AssertionError("transport pair failed to connect: %r" % {n: pair.dtls[n].state for n in "SR"})
+        if cfg.get("outage"):
+            # the path from the sender is down for a while: longer than the sender's history lasts, so the receiver
+            # ends up discarding what it held and asks for a key frame; what is lost *afterwards* is owed again
+            t0 = self.loop.time() + cfg["outage"][0]
+            for link in self.fabric.links:
+                if link.stream.startswith("net.S2R"):
+                    link.blackouts.append((t0, t0 + cfg["outage"][1]))
+            self.faults["outage"] += 1
         if cfg["codec"] == "H264":
             media = RTCRtpCodecParameters(mimeType="video/H264", clockRate=90000, payloadType=96,
                                           parameters={"packetization-mode": "1", "profile-level-id": "42e01f"})
@@ -520,12 +536,17 @@ class MediaWorld(MediaBase):
         if self.cfg["mode"] != "live" or self.cfg.get("hold_feedback"):
             # (feedback that is kept back for seconds asks for packets that have left the sender's history)
             return
-        if self.discards:
-            self.exempt["live_run_with_discard"] += 1
-            return
         got = {k for k, _ in self.tapped}
         # frames sent before the first packet the receiver ever saw cannot be recovered by anyone
         first = min(got) if got else 0
+        if self.discards:
+            # what the buffer threw away is gone, and so may be what was in flight around that moment; frames sent
+            # well after the last discard are owed like any other (requests must still be honoured after a PLI)
+            first = max(first, getattr(self, "last_discard_at", 0) + 30)
+            self.exempt["live_run_with_discard"] += 1
+            if first >= self.n_real:
+                return
+            self.probes["live_frames_judged_after_a_discard"] += 1
         missing = [k for k in range(first, self.n_real) if k not in got]
         if missing:
             self.violation("C11", "lost-packet-not-recovered-although-feedback-and-retransmissions-get-through",
